@@ -45,8 +45,8 @@ func applyPoison(d *apd.Decimal, kind string) {
 }
 
 var regCtx3 = []string{"Add", "Sub", "Mul", "Quo", "QuoInteger", "Rem", "Pow", "Cmp"}
-var regRead1 = []string{"Sign", "CondInfo", "String", "Text", "Sprintf", "Int64", "Float64", "Decompose", "MarshalText"}
-var regCtx2 = []string{"Abs", "Neg", "Round", "Sqrt", "Cbrt", "Exp", "Ln", "Log10", "RoundToIntegralValue", "RoundToIntegralExact", "Ceil", "Floor", "Reduce"}
+var regRead1 = []string{"Sign", "CondInfo", "ShouldAddOne", "String", "Text", "Sprintf", "Int64", "Float64", "Decompose", "MarshalText"}
+var regCtx2 = []string{"RounderRound", "Abs", "Neg", "Round", "Sqrt", "Cbrt", "Exp", "Ln", "Log10", "RoundToIntegralValue", "RoundToIntegralExact", "Ceil", "Floor", "Reduce"}
 
 // GenReg draws a run of the register machine. mode: c05 | c06 | both.
 func GenReg(seed, run uint64, tier, mode string) *plan.Plan {
